@@ -75,6 +75,25 @@ type Case struct {
 	// Prefix > 0: the caller first decodes with the first Prefix options only,
 	// passed as a sub-slice of the same list (theme[:k]...), then with all.
 	Prefix int `json:"prefix,omitempty"`
+	// Observe > 0: a caller-written option placed after the first Observe-1 options looks at the
+	// metadata it is handed, in a decode with a Destination and in one without.
+	Observe int `json:"observe,omitempty"`
+}
+
+// modelAfter: the suggested (or default) palette with the first k options applied in order.
+func modelAfter(c Case, k int) [64]color.RGBA {
+	pm := [64]color.RGBA(ops.DefaultPalette())
+	if c.Suggested != nil {
+		pm = [64]color.RGBA(*c.Suggested)
+	}
+	for _, o := range c.Options[:k] {
+		if o.Kind == "palette" {
+			pm = [64]color.RGBA(*o.Palette)
+		} else {
+			pm[o.Index] = modelConvert(o.Color.Color())
+		}
+	}
+	return pm
 }
 
 // modelConvert is the documented conversion: any colour model to 8-bit
@@ -217,6 +236,42 @@ func checkOptions(c Case) error {
 		return harness.Violatef("c14/reset-palette", "palette entry %d passed to Reset is %v; options applied in order on the suggested palette give %v", i, got[i], model[i])
 	}
 
+	// (i') what a caller-written option sees at its place in the list
+	if c.Observe > 0 {
+		k := c.Observe - 1
+		if k > len(opts) {
+			k = len(opts)
+		}
+		pm := modelAfter(c, k)
+		for _, withDst := range []bool{true, false} {
+			var seen ivg.Metadata
+			calls := 0
+			obs := func(m *ivg.Metadata) { seen = *m; calls++ }
+			list := append(append(append([]decode.DecodeOption{}, opts[:k]...), obs), opts[k:]...)
+			var err error
+			if withDst {
+				err = decode.Decode(&ops.Recorder{}, src, list...)
+			} else {
+				err = decode.Decode(nil, src, list...)
+			}
+			if err != nil {
+				return harness.Violatef("c14/decode-error", "Decode (destination: %v) with an observing option: %v", withDst, err)
+			}
+			if calls == 0 {
+				return harness.Violatef("c14/option-not-applied", "a caller-written option at position %d was never called (destination: %v)", k, withDst)
+			}
+			if vb := rec.Ops[0].ViewBox(); seen.ViewBox != vb {
+				return harness.Violatef("c14/option-sees-metadata", "the option at position %d sees viewBox %v, the graphic has %v (destination: %v)", k, seen.ViewBox, vb, withDst)
+			}
+			for i := range pm {
+				if seen.Palette[i] == pm[i] || !spec.Premultiplied(pm[i]) && seen.Palette[i] == spec.Black {
+					continue
+				}
+				return harness.Violatef("c14/option-sees-metadata", "the option at position %d sees palette entry %d = %v; the suggested palette with the %d options before it gives %v (destination: %v)", k, i, seen.Palette[i], k, pm[i], withDst)
+			}
+		}
+	}
+
 	// (ii) the paint of every path, through a Renderer
 	rr := &rast.Recorder{}
 	var z render.Renderer
@@ -284,7 +339,7 @@ func describe(p *rast.Paint) string {
 	return p.Kind
 }
 
-var subOpt = harness.Define("options", "option lists (0-6 of WithPalette / WithColorAt in any order, any color.Color model, valid and nonsensical values incl. gradient-looking ones) x graphics with or without a suggested palette that paint from palette indices directly, in blends, through CREG references and as untouched initial registers: Reset's palette equals the ordered-application model, every path's paint equals the reference VM on the sanitised palette (nonsensical user entries act as opaque black), inputs untouched; non-trivial = at least one option and a painted index that an option touches", checkOptions)
+var subOpt = harness.Define("options", "option lists (0-6 of WithPalette / WithColorAt in any order, any color.Color model, valid and nonsensical values incl. gradient-looking ones) x graphics with or without a suggested palette that paint from palette indices directly, in blends, through CREG references and as untouched initial registers: Reset's palette equals the ordered-application model, a caller-written option placed anywhere in the list sees the graphic's viewBox and the palette as the options before it left it (with and without a Destination), every path's paint equals the reference VM on the sanitised palette (nonsensical user entries act as opaque black), inputs untouched; non-trivial = at least one option and a painted index that an option touches", checkOptions)
 
 func genColorSpec(t *rapid.T, label string) ColorSpec {
 	model := rapid.SampledFrom([]string{"RGBA", "RGBA", "NRGBA", "RGBA64", "NRGBA64", "Gray", "Gray16", "Alpha", "Alpha16", "CMYK", "Custom"}).Draw(t, label+".model")
@@ -371,6 +426,10 @@ func TestOptions(t *testing.T) {
 		if no >= 2 && rapid.Bool().Draw(t, "prefix") {
 			c.Prefix = rapid.IntRange(1, no-1).Draw(t, "prefixlen")
 			labels = append(labels, "decoded-first-with-a-prefix-of-the-option-list")
+		}
+		if rapid.IntRange(0, 2).Draw(t, "observe") == 0 {
+			c.Observe = 1 + rapid.IntRange(0, no).Draw(t, "observeat")
+			labels = append(labels, "caller-written-option-observes-the-metadata")
 		}
 		subOpt.See(c, no > 0 && touched, harness.HashJSON(c), labels...)
 		subOpt.Run(t, c)
